@@ -223,6 +223,16 @@ def wnafHistory (g : GroupCtx F) (ctx : WnafCtx F) : List String → List String
       let b ← (jacIO g.io).parse b; let k ← parseHex k
       let (res, ctx') ← ctx.scalarThenBase g.rc k b
       wnafHistory g ctx' rest (showJac g res :: acc)
+    | ["bsh", b, n, k] =>
+      -- `ctx.base(b, n)` then `.shared().scalar(k)`: the shared copy has its own digit buffer
+      let b ← (jacIO g.io).parse b; let n ← parseHex n; let k ← parseHex k
+      let (res, ctx') ← ctx.baseThenScalar g.rc b n k
+      wnafHistory g ⟨ctx'.base, ctx.scalar⟩ rest (showJac g res :: acc)
+    | ["sbh", k, b] =>
+      -- `ctx.scalar(k)` then `.shared().base(b)`: the shared copy has its own table buffer
+      let b ← (jacIO g.io).parse b; let k ← parseHex k
+      let (res, ctx') ← ctx.scalarThenBase g.rc k b
+      wnafHistory g ⟨ctx.base, ctx'.scalar⟩ rest (showJac g res :: acc)
     | _ => none
 
 def showDecode (g : GroupCtx F) : Except DecodeErr (Aff F) → String
@@ -313,6 +323,12 @@ def groupOp (g : GroupCtx F) (op : String) (args : List String) : Option String 
   | "dec_uu", [bs] => do let bs ← parseBytes bs; pure (showDecode g (decodeUncompressedUnchecked g.cc bs))
   | "enc_c", [a] => do let a ← A.parse a; pure (showBytes (encodeCompressed g.cc a))
   | "enc_u", [a] => do let a ← A.parse a; pure (showBytes (encodeUncompressed g.cc a))
+  | "intocomp", [a] => do let a ← A.parse a; pure (showBytes (encodeCompressed g.cc a))
+  | "intouncomp", [a] => do let a ← A.parse a; pure (showBytes (encodeUncompressed g.cc a))
+  | "jaczero", [] => pure (J.shw Jac.zero)
+  | "affzero", [] => pure (A.shw Aff.zero)
+  | "affiszero", [a] => do let a ← A.parse a; pure (showBool a.infinity)
+  | "jaciszero", [p] => do let p ← J.parse p; pure (showBool p.isZero)
   -- C19
   | "ser_aff", [a, c] => do let a ← A.parse a; pure (showBytes (serAffine g.cc a (c == "1")))
   | "ser_jac", [p, c] => do
@@ -428,6 +444,12 @@ def miscOp (op : String) (args : List String) : Option String :=
   let A2 := affIO fq2IO
   match op, args with
   | "pairing", [p, q] => do let p ← A1.parse p; let q ← A2.parse q; pure (showFq12O (pairing p q))
+  | "pairwith1", [p, q] => do let p ← A1.parse p; let q ← A2.parse q; pure (showFq12O (pairing p q))
+  | "pairwith2", [p, q] => do let p ← A1.parse p; let q ← A2.parse q; pure (showFq12O (pairing p q))
+  | "consts", ["fq"] => pure (toHex Gen.q ++ " " ++ toString Gen.fq_MODULUS_BITS ++ " " ++ toString (Gen.fq_MODULUS_BITS - 1) ++ " " ++
+      toString Gen.fq_S ++ " " ++ fqIO.shw (Fq.ofMont Gen.fq_GENERATOR) ++ " " ++ fqIO.shw (Fq.ofMont Gen.fq_ROOT_OF_UNITY))
+  | "consts", ["fr"] => pure (toHex Gen.r ++ " " ++ toString Gen.fr_MODULUS_BITS ++ " " ++ toString (Gen.fr_MODULUS_BITS - 1) ++ " " ++
+      toString Gen.fr_S ++ " " ++ frIO.shw (Fr.ofMont Gen.fr_GENERATOR) ++ " " ++ frIO.shw (Fr.ofMont Gen.fr_ROOT_OF_UNITY))
   | "miller", [ps, qs] => do
       let ps ← (splitList ps).mapM A1.parse; let qs ← (splitList qs).mapM A2.parse
       pure (showFq12O (millerLoop (List.zip ps (qs.map G2Prepared.fromAffine))))
@@ -516,6 +538,14 @@ def runLine (line : String) : String :=
     | "g2" :: op :: args => groupOp g2Ctx op args
     | "mfq" :: op :: args => Mont.montOp Mont.fqP op (args.mapM parseHex) |>.map (fun o => o.elim "none" toHex)
     | "mfr" :: op :: args => Mont.montOp Mont.frP op (args.mapM parseHex) |>.map (fun o => o.elim "none" toHex)
+    | ["repr", n, "read_be", bs] => do
+        let n ← n.toNat?; let bs ← parseBytes bs
+        pure (if bs.length < 8 * n then "ERR:eof" else toHex (beToNat (bs.take (8 * n))))
+    | ["repr", n, "read_le", bs] => do
+        let n ← n.toNat?; let bs ← parseBytes bs
+        pure (if bs.length < 8 * n then "ERR:eof" else toHex (leToNat (bs.take (8 * n))))
+    | ["repr", n, "write_be", a] => do let n ← n.toNat?; let a ← parseHex a; pure (showBytes (beBytes (8 * n) a))
+    | ["repr", n, "write_le", a] => do let n ← n.toNat?; let a ← parseHex a; pure (showBytes (leBytes (8 * n) a))
     | "repr" :: n :: op :: args => do
         let n ← n.toNat?
         let args ← args.mapM parseHex
